@@ -59,7 +59,13 @@ func _newSubordinateEnvWithBinds(outer *Env, binds_mt types.MalType, exprs_mt ty
 		var varargs bool
 		i := 0
 		for ; i < len(binds); i++ {
-			if types.Q[types.Symbol](binds[i]) && binds[i].(types.Symbol).Val == "&" {
+			if !types.Q[types.Symbol](binds[i]) {
+				return nil, lisperror.NewLispError(fmt.Errorf("cannot use '%T' as parameter name", binds[i]), nil)
+			}
+			if binds[i].(types.Symbol).Val == "&" {
+				if i+1 >= len(binds) || !types.Q[types.Symbol](binds[i+1]) {
+					return nil, lisperror.NewLispError(errors.New("'&' must be followed by a parameter name"), nil)
+				}
 				env.data[binds[i+1].(types.Symbol).Val] = types.List{Val: exprs[i:]}
 				varargs = true
 				break
